@@ -115,6 +115,12 @@ def gen_cases(seed, tier, consts):
     for bs, n, k in plan:
         old = rb(r, n)
         big.append(("boundary", DS(bs, CH, old, rb(r, k) + old)))
+    # (the streaming repair of round 4) a block size ABOVE the chunk: an unchanged file longer than one chunk is one (partial) block of
+    # old; the window has to hold it whole.  (Any other input of that length costs minutes here: below one block every literal byte
+    # re-hashes the whole rest of the window.)
+    for bs, n in ([(300000, CH + 1000)] if q else [(300000, CH + 1000), (CH + 1, CH + 1), (400000, 399999)]):
+        old = rb(r, n)
+        big.append(("block-above-chunk", DS(bs, CH, old, old)))
     cases += big
     # rolling checksum: random roll sequences, modulo-boundary patterns
     for _ in range(250 if q else 3000):
